@@ -1,1 +1,4 @@
 import JsonataModel.Model.Basic
+import JsonataModel.Model.Interp
+import JsonataModel.Model.Proto
+import JsonataModel.Props.C03
